@@ -284,6 +284,8 @@ struct FaultPlan {
     write: Option<usize>,
     remove: Option<usize>,
     gz: Option<usize>,
+    gzcopy: Option<usize>,
+    gzfinish: Option<usize>,
 }
 fn parse_faults(s: &str) -> FaultPlan {
     let mut f = FaultPlan::default();
@@ -299,6 +301,8 @@ fn parse_faults(s: &str) -> FaultPlan {
             "write" => f.write = Some(v),
             "remove" => f.remove = Some(v),
             "gz" => f.gz = Some(v),
+            "gzcopy" => f.gzcopy = Some(v),
+            "gzfinish" => f.gzfinish = Some(v),
             _ => panic!("fault kind {k}"),
         }
     }
@@ -311,6 +315,8 @@ fn install_faults(plan: FaultPlan) {
     let c_write = AtomicUsize::new(0);
     let c_remove = AtomicUsize::new(0);
     let c_gz = AtomicUsize::new(0);
+    let c_gzcopy = AtomicUsize::new(0);
+    let c_gzfinish = AtomicUsize::new(0);
     flexi_logger::verif_hooks::set_fault_handler(Some(Arc::new(move |kind, _path| {
         let (ctr, at) = match kind {
             "open" | "reopen" => (&c_open, plan.open),
@@ -318,6 +324,8 @@ fn install_faults(plan: FaultPlan) {
             "write" => (&c_write, plan.write),
             "remove" => (&c_remove, plan.remove),
             "gz_create" => (&c_gz, plan.gz),
+            "gz_copy" => (&c_gzcopy, plan.gzcopy),
+            "gz_finish" => (&c_gzfinish, plan.gzfinish),
             _ => return None,
         };
         let n = ctr.fetch_add(1, Ordering::SeqCst);
